@@ -26,32 +26,32 @@ CHECK = {
     "packages": ["./remote", "./internal/remoteclient", "./actor", "./internal/commands"],
     "harness": ["remote/zz_verif_c25.go", "internal/remoteclient/zz_verif_c25.go", "actor/zz_verif_c25.go", "internal/commands/zz_verif_c25.go"],
     "entries": [
-        {"fn": R + "vC25_proto_roundtrip", "replay": MO, "cases": {"nameLen": [1, 3], "payloadLen": [0, 2]}},
+        {"fn": R + "vC25_proto_roundtrip", "replay": MO, "cases_quick": {"nameLen": [1, 3], "payloadLen": [0, 2]}, "cases_thorough": {"nameLen": [1, 2, 3, 4, 5], "payloadLen": [0, 1, 2, 3, 4]}},
         {"fn": R + "vC25_proto_reject", "replay": MO},
-        {"fn": R + "vC25_proto_robust", "replay": MO, "cases": {"maxLen": [16]}},
+        {"fn": R + "vC25_proto_robust", "replay": MO, "cases_quick": {"maxLen": [16]}, "cases_thorough": {"maxLen": [24]}},
         {"fn": R + "vC25_cbor_roundtrip", "replay": MO, "cases": {"kind": [0, 1], "payloadLen": [0, 2]}, "cover_optional": ("struct", "primitive")},
         {"fn": R + "vC25_json_roundtrip", "replay": MO, "cases": {"kind": [0, 1], "payloadLen": [0, 2]}, "cover_optional": ("struct", "primitive")},
-        {"fn": R + "vC25_cbor_robust", "replay": MO, "cases": {"maxLen": [20]}},
-        {"fn": R + "vC25_json_robust", "replay": MO, "cases": {"maxLen": [20]}},
+        {"fn": R + "vC25_cbor_robust", "replay": MO, "cases_quick": {"maxLen": [20]}, "cases_thorough": {"maxLen": [28]}},
+        {"fn": R + "vC25_json_robust", "replay": MO, "cases_quick": {"maxLen": [20]}, "cases_thorough": {"maxLen": [28]}},
         {"fn": R + "vC25_unregistered", "replay": MO, "cases": {"json": [0, 1]}},
-        {"fn": C + "vC25_frameTypeName", "replay": MO, "cases": {"maxLen": [16]}},
+        {"fn": C + "vC25_frameTypeName", "replay": MO, "cases_quick": {"maxLen": [16]}, "cases_thorough": {"maxLen": [32]}},
         {"fn": C + "vC25_dispatch_serialize", "replay": MO, "cases_quick": {"order": [0, 3, 5, 6], "kind": [0, 1, 2, 3]}, "cases_thorough": {"order": [0, 1, 2, 3, 4, 5, 6, 7], "kind": [0, 1, 2, 3]}},
-        {"fn": C + "vC25_dispatch_roundtrip", "replay": MO, "cases_quick": {"order": [0, 3, 5, 6], "kind": [0, 1, 2], "producer": [0, 1, 2]},
-         "cases_thorough": {"order": [0, 1, 2, 3, 4, 5, 6, 7], "kind": [0, 1, 2], "producer": [0, 1, 2]},
+        {"fn": C + "vC25_dispatch_roundtrip", "replay": MO, "cases_quick": {"order": [0, 3, 5, 6], "combo": [0, 1, 2, 3, 4, 5, 6]},
+         "cases_thorough": {"order": [0, 1, 2, 3, 4, 5, 6, 7], "combo": [0, 1, 2, 3, 4, 5, 6]},
          "cover_optional": ("producer-refuses", "proto", "struct", "primitive", "name-collision", "end")},
         {"fn": C + "vC25_dispatch_robust", "replay": MO, "cases_quick": {"order": [0, 5, 6], "maxLen": [16]}, "cases_thorough": {"order": [0, 1, 2, 3, 4, 5, 6, 7], "maxLen": [24]}},
         {"fn": C + "vC25_dispatch_empty", "replay": MO},
         {"fn": C + "vC25_resolve", "replay": MO, "cases": {"userEntries": [0, 1, 2], "message": [0, 1, 2]}, "cover_optional": ("none", "user-entry-wins")},
         {"fn": A + "vC25_terminated_roundtrip", "cases": {"withPath": [0, 1]}, "cover_optional": ("no-path", "with-path"), "opts": {"substitute": {}, "itoa_digits": 4}},
-        {"fn": A + "vC25_terminated_robust", "cases": {"maxLen": [24]}, "opts": {"substitute": {}}},
+        {"fn": A + "vC25_terminated_robust", "cases_quick": {"maxLen": [24]}, "cases_thorough": {"maxLen": [28]}, "opts": {"substitute": {}}},
         {"fn": A + "vC25_poisonpill", "opts": {"substitute": {}}},
         {"fn": D + "vC25_delivery_roundtrip", "replay": MO, "cases": {"command": [0, 1, 2, 3, 4]}, "cover_optional": ("chunked",), "opts": {"substitute": DSUBST}},
         {"fn": D + "vC25_delivery_decode_any", "replay": MO, "cases": {"command": [0, 1, 2, 3, 4, 5]}, "cover_optional": ("accepted", "rejected"), "opts": {"substitute": DSUBST}},
         {"fn": D + "vC25_delivery_reject", "replay": MO, "opts": {"substitute": DSUBST}},
     ],
     "opts": {"unwind": 64, "substitute": SUBST, "sym_slice_cap": 32},
-    "explanation": "",
-    "bounds": {},
-    "assumptions": [],
+    "explanation": "Framing + dispatch kernel. Executed from real SSA: remote.ProtoSerializer/CBORSerializer/JSONSerializer Serialize/Deserialize and isBuiltinPrimitive, internal/net.FindMessageType, internal/remoteclient frameTypeName, newSerializerDispatch, serializerDispatch.Serialize/Deserialize, client.resolveSerializer, actor.terminatedSerializer and poisonPillSerializer (with address.New/String/Parse, newPath), commands.DeliverySerializer.Serialize/Deserialize with every command's validate()/constructor and the generated internalpb getters. Checked: (1) per serializer, Deserialize(Serialize(m)) gives the same type name and payload bytes (struct -> pointer to equal struct, built-in primitive -> equal value), the frame has the documented layout, and a value the serializer does not support (nil, unregistered type, non-proto) yields an error and NO bytes; (2) Deserialize on an ARBITRARY buffer of symbolic length never panics (all implicit panics are obligations), rejects truncated frames with the documented error and on success hands exactly the payload region to the payload codec; (3) under dispatch, for every registration order of the three serializers (and without a protobuf serializer): Serialize uses the first registered serializer that accepts the value and returns an error and no bytes when none does; a frame produced by serializer X decodes to an equal value - including when the non-protobuf type name collides with a registered protobuf message name (fast path fails, ordered loop takes over); arbitrary bytes never panic; (4) resolveSerializer against the DOCUMENTED order (exact concrete type, then first interface match, registration order within a category): fails on the unchanged tree = known finding C25-1; (5) Terminated/PoisonPill/delivery commands round-trip, refuse each other's frames and foreign values, and accept exactly their documented layout on arbitrary bytes; a delivery command is serialized iff valid and ANY envelope protobuf could decode (any command kind, absent sub-messages) never panics and yields only valid commands. Substituted (trusted contract, part of the claim): the payload codecs - protobuf (MessageName/Size/MarshalAppend/Unmarshal/registry), cbor Enc/DecMode, sonic API - are inverse pairs on payload bytes that reject each other's output (one-byte format tag); reflect (TypeOf, New, Value.Interface/Elem, Type.Kind/String/PkgPath/Elem/Implements) over a harness type universe {protobuf message, registered struct, unregistered struct, string}; the types registry (two registered names); for the delivery serializer protobuf carries the envelope as is and types.IsNil is a reflection-free equivalent.",
+    "bounds": {'payload': '0..2 bytes, contents symbolic', 'protobuf name': "1..3 bytes (6 in the dispatch entries so that it can collide with the type name 'string')", 'arbitrary input': 'symbolic length <= 16 (proto, frameTypeName, dispatch) / 20 (cbor, json) / 24 (Terminated) / 10 (PoisonPill, delivery)', 'dispatch': 'registration orders: quick 4 of the 8 (6 permutations + 2 without protobuf), thorough all 8; the 5 matching (value kind, producer) pairs and 2 mismatches', 'resolveSerializer': 'default proto.Message entry + 0..2 user entries out of {concrete proto type, interface, concrete struct type} in any order; 3 message types', 'Terminated': 'path name 2 symbolic alphanumeric bytes, host/system/port fixed, any int64 timestamp', 'delivery': 'string fields <= 2 bytes, any int64 sequence numbers, payload <= 2 bytes'},
+    "assumptions": ["value-level equality of what the payload codecs decode (protobuf, CBOR, JSON libraries) is trusted, as are reflect's type names", "the three payload codecs reject each other's output", 'slice-to-array conversions are materialised as copies', 'remote.Config.Serializer (same single loop over a Go map, random order) is not executed: map iteration order is not modelled'],
     "timeout_ms": {"quick": 900000, "thorough": 1800000},
 }
